@@ -14,7 +14,7 @@ from common import Stream
 h = common.repo_env()
 
 ASSUMPTIONS = [
-    "operation alphabet = setattr/add/get/getattr/delattr on names not starting with '_' (underscore names are Python-private by design); "
+    "operation alphabet = setattr/add/get/getattr on names not starting with '_' (underscore names are Python-private by design), delattr on any name; "
     "Signal.vis is not mutated after the signal is added; `m.name = <str>` is not an HDL attribute operation",
 ]
 TRUSTED = []
@@ -209,7 +209,8 @@ def gen_case(rng, cfg, nops, with_elab):
         elif r < 0.9:
             ops.append({"op": "getattr", "name": nm})
         elif r < 0.93:
-            ops.append({"op": "delattr", "name": nm})
+            # (attribute deletion is refused whatever the name: HDL attribute, reserved, native or private)
+            ops.append({"op": "delattr", "name": rng.choice([nm, nm, "_initialized", "_private", "namespace"])})
         elif r < 0.97 and not with_elab:
             ops.append({"op": "steal", "v": v, "key": rng.choice(names[:3])})
         elif with_elab and cfg == "module":
@@ -261,8 +262,25 @@ def class_style(ctx):
             return {"signal": lambda: h.Signal(width=w, name=preset), "port": lambda: h.Port(width=w, name=preset),
                     "bundle": lambda: BB(name=preset), "instance": lambda: h.Instance(of=inner, name=preset)}[kind]()
 
-        cls = type("Top", (), {n: mk(kind, w, preset) for n, kind, w, preset in attrs})
-        mc = (h.bundle if as_bundle else h.module)(cls)
+        body = {n: mk(kind, w, preset) for n, kind, w, preset in attrs}
+        alias = None
+        if rng.random() < 0.25:
+            # one object bound under a second name in the class body: refused, as the procedural form refuses it
+            alias = (rng.choice([a[0] for a in attrs]), rng.choice(["alias", "z2"]))
+            body[alias[1]] = body[alias[0]]
+        try:
+            mc = (h.bundle if as_bundle else h.module)(type("Top", (), body))
+        except RuntimeError:
+            mc = None
+        if alias is not None:
+            rep.count("class_vs_procedural", json.dumps([as_bundle, attrs, alias]))
+            if mc is not None:
+                rep.fail("pred", {"stream": "class_vs_procedural", "bundle": as_bundle, "attrs": attrs, "alias": alias},
+                         f"a class body binding one object under two names was accepted: {sorted(mc.namespace)}")
+            continue
+        if mc is None:
+            rep.fail("corr", {"stream": "class_vs_procedural", "bundle": as_bundle, "attrs": attrs}, "a class body without aliases was refused")
+            continue
         mp = (h.Bundle if as_bundle else h.Module)(name="Top")
         for n, kind, w, preset in attrs:
             setattr(mp, n, mk(kind, w, preset))
